@@ -121,13 +121,29 @@ Definition gn_unit_singletons (picks : list (nat * Q)) : nat -> Q :=
             picks (fun _ => 0).
 
 (* ---------- oxs ---------- *)
-(* _apply_or: xor_values = zeros; for S, for T disjoint from S: xor_values[S|T] = min(v1[S] + v2[T], xor_values[S|T]).
-   The cell of U is touched exactly by the pairs (S, U - S), S a subset of U, in increasing order of S;
-   cells do not read one another, so the per-cell fold below is the loop. *)
+(* _apply_or, loop for loop:
+     xor_values = np.zeros(2**n)
+     for S in all_coalitions(n):
+         for T in filter(partial(disjoint_coalitions, S), all_coalitions(n)):
+             xor_values[(S | T).id] = min(values1[S.id] + values2[T.id], xor_values[(S | T).id])
+   (every cell is re-normalised with Qred when written: same rational, bounded size) *)
+Fixpoint gn_upd (t : list Q) (k : nat) (x : Q) : list Q :=
+  match t, k with
+  | [], _ => []
+  | _ :: r, O => x :: r
+  | y :: r, S k' => y :: gn_upd r k' x
+  end.
+Definition gn_or_pairs (n : nat) : list (N * N) :=
+  flat_map (fun S => map (pair S) (filter (fun T => disjb S T) (alln n))) (alln n).
+Definition gn_apply_or_step (t1 t2 : list Q) (acc : list Q) (p : N * N) : list Q :=
+  let U := N.lor (fst p) (snd p) in
+  gn_upd acc (N.to_nat U) (Qred (Qmin (gn_get t1 (fst p) + gn_get t2 (snd p)) (gn_get acc U))).
+Definition gn_apply_or (n : nat) (t1 t2 : list Q) : list Q :=
+  fold_left (gn_apply_or_step t1 t2) (gn_or_pairs n) (gn_table n (fun _ => 0)).
+(* What the loop computes in the cell of U (GeneratorsProofs.gn_apply_or_get): that cell is touched exactly by the
+   pairs (S, U - S), S a subset of U, in increasing order of S, starting from the initial zero. *)
 Definition gn_apply_or_cell (n : nat) (v1 v2 : N -> Q) (U : N) : Q :=
   fold_left (fun acc S => Qmin (v1 S + v2 (N.ldiff U S)) acc) (filter (fun S => sub S U) (alln n)) 0.
-Definition gn_apply_or (n : nat) (t1 t2 : list Q) : list Q :=
-  gn_table n (fun U => Qred (gn_apply_or_cell n (gn_get t1) (gn_get t2) U)).
 Definition gn_oxs (n : nat) (ss : list (nat -> Q)) (normalize : bool) : option (list Q) :=
   match rev (map (fun s => gn_table n (gn_xs n s)) ss) with
   | [] => None                                                     (* xs_values.pop() on an empty list *)
